@@ -272,6 +272,19 @@ def gen_workspace(rnd: random.Random, root="/vw", max_depth=3, chain_only=False)
             files[q0] += "\ndef test_out_of_scope(%s):\n    pass\n" % nm
             tags.append("usage:out-of-scope-single")
 
+    # two sibling packages that each import THEIR OWN module under the same absolute name (a monorepo of
+    # services, each with its testing/fixtures module): an absolute name resolves from the importing file
+    if not chain_only and rnd.random() < 0.18:
+        n = rnd.choice(names)
+        mod = rnd.choice(["svcfx", "testing_fx", "shared_fx"])
+        for side in ("svc_a", "svc_b"):
+            files[root + "/" + side + "/" + mod + ".py"] = "import pytest\n\n" + fixture_src(rnd, n, doc="of " + side) + "\n" \
+                + fixture_src(rnd, "only_" + side, doc="only in " + side) + "\n"
+            files[root + "/" + side + "/conftest.py"] = rnd.choice(["from %s import *\n" % mod, "pytest_plugins = (\"%s\",)\n" % mod,
+                                                                   "import pytest\nfrom %s import %s, only_%s\n" % (mod, n, side)])
+            files[root + "/" + side + "/test_svc.py"] = test_src(rnd, "test_svc", [n, "only_" + side])
+        tags.append("import:twin-absolute")
+
     # a diamond in the star-import graph, reached from two sibling conftest.py files: whatever
     # the first query leaves in the import memo, the second conftest must see the same names
     if not chain_only and rnd.random() < 0.2:
